@@ -277,6 +277,46 @@ def extra_skeletons():
     return out
 
 
+# strings a translator might be tempted to treat specially: inline regex flags, anchors, wildcards at either end, keyword look-alikes,
+# digits, a date spelling, bind-parameter templates (wave 13)
+MARKED = ["(?i)hel+o", "(?s)a.b", "(?i)", "^a", "a$", ".*", "[a-z]+", "\\d", "%a", "a%", "%", "_", "null", "true", "NULL", "0", "1", "2020-02-29", "%s", ":p", "?", "a||b", "X"]
+
+
+def marked_string_layer(ctx):
+    s_ = typed.F("s")
+    base = T.Str("x")
+    skels = SC.string_position_terms(base, {"indexof": True, "concat": True}) + [
+        T.call("matchesPattern", s_, base), T.unop("Not", T.call("matchesPattern", s_, base)),
+        T.binop("Or", T.call("matchesPattern", s_, base), T.binop("Eq", s_, base)), T.call("matchesPattern", T.call("tolower", s_), base)]
+    n = 0
+    for sk in skels:
+        cols = colkey(typed.fields_of(sk))
+        ctx.count("states")
+        for bname in BACKENDS:
+            try:
+                ref_sql, _ = BACKENDS[bname](to_odata(sk), cols)
+            except Exception:  # noqa
+                ctx.outcome((bname, "marked", "refused"))
+                continue
+            for m in MARKED:
+                lit = ("String", m.replace("'", "''"))
+                text = to_odata(T.replace(sk, lambda nd: lit if nd == base else nd))
+                n += 1
+                ctx.count("executions")
+                ctx.count("transitions")
+                try:
+                    sql, params = BACKENDS[bname](text, cols)
+                except Exception as e:  # noqa
+                    ctx.violation("%s:marked-string:value-dependent-failure" % bname, {"backend": bname, "filter": text, "baseline": to_odata(sk), "layer": "marked",
+                                                                                      "outcome": type(e).__name__ + ": " + str(e)[:80]})
+                    continue
+                if sql != ref_sql:
+                    ctx.violation("%s:marked-string:sql-differs" % bname, {"backend": bname, "filter_a": to_odata(sk), "filter_b": text, "sql_a": ref_sql, "sql_b": sql, "layer": "marked"})
+                else:
+                    ctx.outcome((bname, "marked", "ok"))
+    return n, len(skels)
+
+
 def run(ctx):
     django_h.setup()
     all_pairs = list(combinations(range(4), 2))
@@ -294,12 +334,21 @@ def run(ctx):
     for t in extra_skeletons():
         check_term(ctx, t, list(BACKENDS), all_pairs)
     ctx.layer("literal-kinds", skeletons=len(extra_skeletons()), kinds=list(BY_KIND), pairs=len(all_pairs), exhaustive=True)
+    nm, nsk = marked_string_layer(ctx)
+    ctx.layer("marked-strings", skeletons=nsk, strings=len(MARKED), translations=nm, backends=list(BACKENDS), exhaustive=True,
+              note="strings that look like an inline regex flag, an anchor, a wildcard, a keyword, a number, a date or a bind template, in every string position incl. matchesPattern: same SQL text as for 'x' (whose text the skeleton layers show free of the value)")
 
 
 def replay(ctx, case):
     django_h.setup()
     from vt.decode import decode
     from odata_query.grammar import ODataLexer, ODataParser
+    if case.get("layer") == "marked":
+        acc = Acc()
+        marked_string_layer(acc)
+        key = case.get("filter") or case.get("filter_b")
+        mine = [v for v in acc.violations if v["case"]["backend"] == case["backend"] and (v["case"].get("filter") or v["case"].get("filter_b")) == key]
+        return {"filter": key, "violations": mine, "ok": not mine}
     text = case.get("filter") or case.get("filter_a") or case["filters"][0]
     term = decode(ODataParser().parse(ODataLexer().tokenize(text)))
     acc = Acc()
